@@ -316,3 +316,206 @@ func derivesFromOwnParam(v ssa.Value, fn *ssa.Function, d int) bool {
 	}
 	return false
 }
+
+// retainedIsDeepCopy: the message object stored into a retained-tree node shares no byte storage with the PUBLISH
+// that is being retained: a setter of the stored object that keeps its argument (m.topic = v) is only handed
+// freshly allocated slices. (The stored object is normally filled by Decode from a private buffer.)
+func (c *Ctx) retainedIsDeepCopy() {
+	n := 0
+	for _, fn := range c.P.Funcs {
+		if fn.Pkg == nil || fn.Pkg.Pkg.Path() != pkgTopics {
+			continue
+		}
+		var objs []ssa.Value
+		for _, b := range fn.Blocks {
+			for _, in := range b.Instrs {
+				if st, ok := in.(*ssa.Store); ok {
+					if p := ir.PathOf(st.Addr); len(p.Fields) >= 1 && p.Fields[len(p.Fields)-1] == "msg" && len(p.Owners) > 0 && p.Owners[len(p.Owners)-1] != nil && p.Owners[len(p.Owners)-1].Obj().Name() == "rnode" {
+						objs = append(objs, ir.SeeThrough(st.Val))
+					}
+				}
+			}
+		}
+		for _, obj := range objs {
+			if k, isK := obj.(*ssa.Const); isK && k.IsNil() {
+				continue
+			}
+			n++
+			var bad []string
+			for _, call := range ir.Calls(fn) {
+				cc := call.Common()
+				m := cc.StaticCallee()
+				if m == nil || m.Blocks == nil || cc.IsInvoke() || len(cc.Args) == 0 || ir.SeeThrough(cc.Args[0]) != obj {
+					continue
+				}
+				for i, prm := range m.Params {
+					if i == 0 || i >= len(cc.Args) {
+						continue
+					}
+					if _, isSl := prm.Type().Underlying().(*types.Slice); !isSl {
+						continue
+					}
+					if !storesParamIntoField(m, prm) {
+						continue
+					}
+					if ok, why := freshValue(cc.Args[i], 0); !ok {
+						bad = append(bad, fmt.Sprintf("%s keeps %s (%s)", m.Name(), cc.Args[i].Name(), why))
+					}
+				}
+			}
+			c.R.Check(len(bad) == 0, ruleG6, fmt.Sprintf("%s:retained-message-shares-no-bytes-with-the-publish", fname(fn)), c.P.Pos(fn.Pos()), "the stored message is filled from private storage only",
+				"the message stored in the retained tree is given slices of the PUBLISH being retained ("+joinStr(bad, "; ")+"): they are views of the publisher's receive ring, which later traffic overwrites - new subscribers get a corrupted topic / payload")
+		}
+	}
+	c.R.Count("stores of a retained message object", n)
+	c.R.Floor("stores of a retained message object", n, 1)
+}
+
+// storesParamIntoField: method m stores its parameter (as it is) into a field of its receiver.
+func storesParamIntoField(m *ssa.Function, prm *ssa.Parameter) bool {
+	for _, b := range m.Blocks {
+		for _, in := range b.Instrs {
+			st, ok := in.(*ssa.Store)
+			if !ok || ir.SeeThrough(st.Val) != ssa.Value(prm) {
+				continue
+			}
+			if p := ir.PathOf(st.Addr); len(p.Fields) > 0 && p.Root == ssa.Value(m.Params[0]) {
+				return true
+			}
+		}
+	}
+	return false
+}
+
+// connackCodeReachesAccept: the refusal code travels as the error value itself: a function on the way from the CONNECT
+// decoder to the accept function, in the region where a callee that can yield a ConnackCode has failed, returns that
+// callee's error unchanged (not wrapped, not replaced) - the accept function recognises the code by a type assertion.
+func (c *Ctx) connackCodeReachesAccept() {
+	yields := map[*ssa.Function]bool{}
+	isErr := func(t types.Type) bool { return types.Identical(t, types.Universe.Lookup("error").Type()) }
+	var lib []*ssa.Function
+	for _, fn := range c.P.Funcs {
+		if fn.Blocks == nil || fn.Pkg == nil {
+			continue
+		}
+		if pp := fn.Pkg.Pkg.Path(); pp != pkgMessage && pp != pkgService {
+			continue
+		}
+		rs := fn.Signature.Results()
+		if rs.Len() == 0 || !isErr(rs.At(rs.Len()-1).Type()) {
+			continue
+		}
+		lib = append(lib, fn)
+		for _, ret := range ir.Returns(fn) {
+			if mi, ok := ir.ReturnOperand(ret, len(ret.Results)-1).(*ssa.MakeInterface); ok && namedName(mi.X.Type()) == "ConnackCode" {
+				yields[fn] = true
+			}
+		}
+	}
+	for changed := true; changed; {
+		changed = false
+		for _, fn := range lib {
+			if yields[fn] {
+				continue
+			}
+			for _, ret := range ir.Returns(fn) {
+				if src := errSourceOf(ir.ReturnOperand(ret, len(ret.Results)-1)); src != nil {
+					if f := src.Common().StaticCallee(); f != nil && yields[f] {
+						yields[fn] = true
+						changed = true
+					}
+				}
+			}
+		}
+	}
+	n := 0
+	for _, fn := range lib {
+		// the consumer of the code (it asserts the error's type) answers it instead of passing it on
+		consumer := false
+		for _, b := range fn.Blocks {
+			for _, in := range b.Instrs {
+				if ta, ok := in.(*ssa.TypeAssert); ok && namedName(ta.AssertedType) == "ConnackCode" {
+					consumer = true
+				}
+			}
+		}
+		if consumer {
+			continue
+		}
+		for _, call := range ir.Calls(fn) {
+			cv, ok := call.(*ssa.Call)
+			if !ok {
+				continue
+			}
+			f := cv.Common().StaticCallee()
+			if f == nil || !yields[f] || f == fn {
+				continue
+			}
+			// regions where this call has failed
+			var failed []*ssa.BasicBlock
+			for _, b := range fn.Blocks {
+				iff, ok := b.Instrs[len(b.Instrs)-1].(*ssa.If)
+				if !ok {
+					continue
+				}
+				for e := 0; e < 2; e++ {
+					if src, nonNil, ok := paths.ErrEdge(iff, e); ok && src == cv && nonNil && len(b.Succs[e].Preds) == 1 {
+						failed = append(failed, b.Succs[e])
+					}
+				}
+			}
+			if len(failed) == 0 {
+				continue
+			}
+			n++
+			var bad []string
+			for _, ret := range ir.Returns(fn) {
+				in := false
+				for _, fb := range failed {
+					if fb == ret.Block() || fb.Dominates(ret.Block()) {
+						in = true
+					}
+				}
+				if !in {
+					continue
+				}
+				op := ir.ReturnOperand(ret, len(ret.Results)-1)
+				if k, isK := op.(*ssa.Const); isK && k.IsNil() {
+					continue // swallowing the failure is another rule's business
+				}
+				if errSourceOf(op) != cv {
+					bad = append(bad, c.P.InstrPos(ret))
+				}
+			}
+			c.R.Check(len(bad) == 0, ruleP6, fmt.Sprintf("%s:error-of-%s-returned-unchanged", fname(fn), f.Name()), c.P.InstrPos(cv), "where "+f.Name()+" failed its error is returned as it is",
+				fname(fn)+" returns another error value than the one "+f.Name()+" produced (return at "+joinStr(bad, ", ")+"): a CONNACK refusal code wrapped or replaced on the way is not recognised by the accept function's type assertion - the client is disconnected without the CONNACK code the protocol demands")
+		}
+	}
+	c.R.Count("call sites passing on an error that can carry a CONNACK code", n)
+	c.R.Floor("call sites passing on an error that can carry a CONNACK code", n, 1)
+}
+
+// storeKeyNeverEmpty: the session store generates a random key for an empty one, and the teardown deletes by the
+// session's own identifier: a connection whose CONNECT carries no client identifier gets one written into its
+// CONNECT before the store is used, so that what teardown deletes is what was stored.
+func (c *Ctx) storeKeyNeverEmpty() {
+	fn := c.sessionLookupFn()
+	if fn == nil {
+		c.R.Unresolved("session lookup/creation function of Server (Manager.Get + Manager.New)")
+		return
+	}
+	g := paths.New(c.P, fn, 0)
+	setID := nodeM(mMethod(pkgMessage, "ConnectMessage", "SetClientID"))
+	store := nodeM(mAny(mMethod(pkgSessions, "Manager", "New"), mMethod(pkgSessions, "Manager", "Get")))
+	const atom = "eq:len(ConnectMessage.ClientID):0"
+	pos := c.P.Pos(fn.Pos())
+	if !hasAtom(g, atom) {
+		c.R.Bad(ruleP8, "getSession:empty-client-id-gets-an-identifier", pos, "the session lookup does not test for an empty client identifier: such a session is stored under a key the store makes up, and teardown - which deletes by the session's own identifier - never removes it")
+		return
+	}
+	if p := reach(g, []paths.Node{g.Entry()}, setID, store, Assume{atom: true}); p != nil {
+		c.R.Bad(ruleP8, "getSession:empty-client-id-gets-an-identifier", pos, "with an empty client identifier the session store is used before an identifier was written into the CONNECT: the session is stored under a key the store makes up, teardown deletes by the (empty) identifier of the session and removes nothing - one session leaks per anonymous connection", c.witness(g, p)...)
+	} else {
+		c.R.Ok(ruleP8, "getSession:empty-client-id-gets-an-identifier", pos, "an empty client identifier is replaced before the store is used")
+	}
+}
